@@ -20,6 +20,10 @@ for p in "$@"; do
   out=$(cd "$vc" && ./check $p ${TIER:+--tier $TIER} 2>&1)
   total=$(echo "$out" | grep -c "^VIOLATION")
   noinput=$(echo "$out" | grep "^VIOLATION" | grep -c "no-failing-input-found")
+  if echo "$out" | grep -q "obligations 0/1 evaluations=0"; then
+    echo "=== $p on seeded tree: BUILD-FAILED (the seeded tree does not compile: not a valid seed for this HEAD)"
+    continue
+  fi
   echo "=== $p on seeded tree: $total VIOLATION lines, $((total - noinput)) with a concrete failing input"
   echo "$out" | grep -E "^VIOLATION" | grep -v "no-failing-input-found" | head -2
   echo "$out" | tail -1
